@@ -6,7 +6,6 @@ import (
 	"fmt"
 	"os"
 	"path/filepath"
-	"regexp"
 	"sort"
 	"strings"
 
@@ -129,31 +128,22 @@ func (idx *Index) GetEntriesByDirectory(dirName string) []*Entry {
 }
 
 func (idx *Index) IsRegisteredAsDirectory(dirName string) bool {
-	if idx.EntryNum == 0 {
-		return false
-	}
-
-	dirRegexp := regexp.MustCompile(fmt.Sprintf(`%s\/.+`, dirName))
+	// entries are sorted by path, and the paths beneath the directory are the ones
+	// that extend "<dirName>/": find the first entry greater than that prefix
+	prefix := dirName + "/"
 
 	left := 0
-	right := int(idx.EntryNum)
-	for {
+	right := len(idx.Entries)
+	for left < right {
 		middle := (left + right) / 2
-		entry := idx.Entries[middle]
-		if dirRegexp.MatchString(string(entry.Path)) {
-			return true
-		} else if string(entry.Path) < dirName {
+		if string(idx.Entries[middle].Path) <= prefix {
 			left = middle + 1
 		} else {
 			right = middle
 		}
-
-		if right-left < 1 {
-			break
-		}
 	}
 
-	return false
+	return left < len(idx.Entries) && strings.HasPrefix(string(idx.Entries[left].Path), prefix)
 }
 
 func (idx *Index) Update(rootGoitPath string, hash sha.SHA1, path []byte) (bool, error) {
